@@ -113,7 +113,10 @@ func NewChaos(w *World, o ChaosOpts) *Chaos {
 		cp.Present = true
 	}
 	if !o.NoServe {
-		ch.E.Serve("10.0.0.5:179")
+		// one to three listeners (the extra ones see no traffic but have their own
+		// acceptor goroutines, which shutdown must also collect)
+		addrs := []string{"10.0.0.5:179", "10.0.0.6:179", "[fd00::5]:179"}
+		ch.E.Serve(addrs[:1+w.Draw(3, "nlisteners")]...)
 	}
 	for _, cp := range ch.Peers {
 		cp := cp
